@@ -209,8 +209,18 @@ func runSnps(vec map[string]interface{}) map[string]interface{} {
 
 // vec: queries [[sym]], targets [[sym]], measure, n int (0 = plain), d string ("" = none), table bool, threads int
 func runClosest(vec map[string]interface{}) map[string]interface{} {
-	qs := seqList(gList(vec, "queries"), "q", false)
-	ts := seqList(gList(vec, "targets"), "t", false)
+	qs := seqList(gList(vec, "queries"), "q", gBool(vec, "lowq"))
+	ts := seqList(gList(vec, "targets"), "t", gBool(vec, "lowt"))
+	if m := intList(gList(vec, "maskt")); len(m) == 2 {
+		// soft-masked targets: a lower-case stretch
+		for i := range ts {
+			b := []byte(ts[i].seq)
+			for j := m[0]; j < m[1] && j < len(b); j++ {
+				b[j] = strings.ToLower(string(b[j]))[0]
+			}
+			ts[i].seq = string(b)
+		}
+	}
 	qFa := renderFasta(qs, 0, false)
 	tFa := renderFasta(ts, 0, false)
 	measure := gStr(vec, "measure")
